@@ -246,6 +246,82 @@ def unit_update(tier, ntree, nbody):
     return ck
 
 
+def unit_wakeeq(tier, ntree, eqs):
+    """mj_wakeEquality: trees coupled by an ACTIVE equality (d->eq_active, runtime-toggleable) to an awake tree are woken, whole sleep cycles at a time; inactive equalities do nothing.
+    eqs: list of (type, body1, body2) with one body per tree (body b belongs to tree b-1), body 0 = world (static)"""
+    ck = Checker('wakeEquality_nt%d_%s' % (ntree, '_'.join('%s%d%d' % (t[5:8], b1, b2) for t, b1, b2 in eqs)), tier, timeout_s=120)
+    L = lay(); KE = build.enum_values('mjEQ_'); KO = build.enum_values('mjOBJ_'); KN = build.enum_values('mjENBL_'); KS = build.enum_values('mjS_')
+    import re
+    src = open(build.REPO + '/src/engine/engine_sleep.c').read()
+    minawake = build.enum_values('mjMINAWAKE').get('mjMINAWAKE')
+    if minawake is None: minawake = int(re.search(r'#define\s+mjMINAWAKE\s+(\d+)', src + open(build.REPO + '/include/mujoco/mjmodel.h').read() + open(build.REPO + '/include/mujoco/mjtype.h').read()).group(1))
+    kawake = -(1 + minawake)
+    w = W.World(); neq = len(eqs); nb = ntree + 1
+    M = W.SB(w, L, 'mjModel_', 'm'); D = W.SB(w, L, 'mjData_', 'd')
+    M.set('neq', neq); M.set('ntree', ntree); M.set('nbody', nb); M.set('opt.enableflags', KN['mjENBL_SLEEP'])
+    M.arr('eq_type', 'i32', neq, [KE[t] for t, _, _ in eqs]); M.arr('eq_objtype', 'i32', neq, [KO['mjOBJ_BODY'] if t != 'mjEQ_JOINT' else KO['mjOBJ_JOINT'] for t, _, _ in eqs])
+    M.arr('eq_obj1id', 'i32', neq, [b1 if t != 'mjEQ_JOINT' else b1 - 1 for t, b1, _ in eqs]); M.arr('eq_obj2id', 'i32', neq, [b2 if t != 'mjEQ_JOINT' else b2 - 1 for t, _, b2 in eqs])
+    M.arr('body_treeid', 'i32', nb, [-1] + list(range(ntree))); M.arr('jnt_bodyid', 'i32', ntree, list(range(1, nb)))
+    e0o, e0 = M.arr('eq_active0', 'u8', neq, name='eq_active0')
+    eao, ea = D.arr('eq_active', 'u8', neq, name='eq_active')
+    ao, a = D.arr('tree_asleep', 'i32', ntree)
+    two, tw = D.arr('tree_awake', 'i32', ntree); bwo, bw = D.arr('body_awake', 'i32', nb)
+    D.sym('time', 'time')
+    pre = [cyc(a)] + [z3.Or(x == 0, x == 1) for x in list(e0) + list(ea)] + [tw[t] == z3.If(a[t] < 0, I(KS['mjS_AWAKE']), I(KS['mjS_ASLEEP'])) for t in range(ntree)]
+    pre += [bw[0] == KS['mjS_STATIC']] + [bw[b] == tw[b - 1] for b in range(1, nb)]
+    ex = llsym.Exec(mod(), loop_bound=4 * ntree + neq + 6, stubs=STUBS, fpmode='fp', max_paths=20000)
+    st = w.to_state(ex); st.pc += pre
+    res = ex.run('@mj_wakeEquality', [w.P(M.o), w.P(D.o)], st)
+    ck.note_results(ex, res)
+    args = [('ptr', (M.o, 0)), ('ptr', (D.o, 0))]
+    dec = lambda mdl: {'tree_asleep': [W.evalnum(mdl, x) if W.evalnum(mdl, x) < (1 << 31) else W.evalnum(mdl, x) - (1 << 32) for x in a], 'eq_active': [W.evalnum(mdl, x) for x in ea], 'eq_active0': [W.evalnum(mdl, x) for x in e0]}
+    # reference: equalities in order; sleep states from the tree_awake flags as given, cycles from the current tree_asleep
+    cur = list(a); nw = I(0)
+    awake0 = [a[t] < 0 for t in range(ntree)]
+    for k, (ty, b1, b2) in enumerate(eqs):
+        t1, t2 = b1 - 1, b2 - 1
+        if t1 < 0 or t2 < 0 or t1 == t2: continue          # static partner / same tree: nothing to do
+        s1, s2 = z3.Not(awake0[t1]), z3.Not(awake0[t2])       # asleep flags
+        o1 = orbit(cur, t1); o2 = orbit(cur, t2)
+        def cycid(orb, t0):
+            m_ = I(ntree)
+            for t in reversed(range(ntree)): m_ = z3.If(orb[t], I(t), m_)
+            return z3.If(cur[t0] < 0, I(-1), m_)          # mj_sleepCycle: -1 for a tree that is (by now) awake
+        same_cycle = cycid(o1, t1) == cycid(o2, t2)
+        act = ea[k] != 0
+        wake1 = z3.And(act, z3.Or(z3.And(s1, z3.Not(s2)), z3.And(s1, s2, z3.Not(same_cycle))), cur[t1] >= 0)
+        wake2 = z3.And(act, z3.Or(z3.And(s2, z3.Not(s1)), z3.And(s1, s2, z3.Not(same_cycle))), cur[t2] >= 0)
+        n1 = sum([z3.If(o, I(1), I(0)) for o in o1], I(0)); n2 = sum([z3.If(o, I(1), I(0)) for o in o2], I(0))
+        # an already woken tree (cur >= 0 false) only has its counter lowered to kAwake
+        low1 = z3.And(act, z3.Or(z3.And(s1, z3.Not(s2)), z3.And(s1, s2, z3.Not(same_cycle))), cur[t1] < 0)
+        low2 = z3.And(act, z3.Or(z3.And(s2, z3.Not(s1)), z3.And(s1, s2, z3.Not(same_cycle))), cur[t2] < 0)
+        nxt = []
+        for t in range(ntree):
+            v = cur[t]
+            v = z3.If(z3.And(wake1, o1[t]), I(kawake), v)
+            v = z3.If(z3.And(wake2, o2[t]), I(kawake), v)
+            if t == t1: v = z3.If(z3.And(low1, I(kawake) < v), I(kawake), v)
+            if t == t2: v = z3.If(z3.And(low2, I(kawake) < v), I(kawake), v)
+            nxt.append(v)
+        nw = nw + z3.If(wake1, n1, I(0)) + z3.If(z3.And(wake2, z3.Not(z3.And(wake1, same_cycle))), n2, I(0))
+        cur = [z3.simplify(v) for v in nxt]
+    for r in res:
+        if r.kind == 'error':
+            ck.prove('wakeEquality: no error for connect / weld / joint equalities', r.state.pc, z3.BoolVal(False), site='mj_wakeEquality:error', decode=dec, replay=W.make_replay(so(), 'mj_wakeEquality', w, args, restype='i32', expect='error')); continue
+        if r.kind != 'return': continue
+        new = [ex.load(r.state, w.P(ao, 4 * t), IntT(32)) for t in range(ntree)]
+        rp = W.make_replay(so(), 'mj_wakeEquality', w, args, restype='i32', ret_term=r.value, outputs=[('a%d' % t, ao, 4 * t, 'i32', new[t]) for t in range(ntree)])
+        pc = r.state.pc
+        ck.prove('wakeEquality: a sleeping tree tied by an ACTIVE equality to an awake tree (or to a sleeping tree of another cycle) is woken with its whole cycle; inactive equalities, static partners and same-cycle pairs change nothing',
+                 pc, z3.And(*[new[t] == cur[t] for t in range(ntree)]), site='mj_wakeEquality:trees', decode=dec, replay=rp)
+        ck.prove('wakeEquality: returns the number of trees woken', pc, r.value == nw, site='mj_wakeEquality:count', decode=dec, replay=rp)
+        ck.prove('wakeEquality: cycle invariant preserved', pc, cyc(new), site='mj_wakeEquality:invariant', decode=dec, replay=rp)
+    ck.reach('an active equality between a sleeping and an awake tree', pre + [ea[0] == 1, a[0] >= 0, a[1] < 0])
+    ck.reach('runtime-disabled equality that is active in the model', pre + [ea[0] == 0, e0[0] == 1, a[0] >= 0, a[1] < 0])
+    ck.memory_obligations(res, decode=dec, replay=W.make_asan_replay(so_asan, [('mj_wakeEquality', args, 'i32')], w))
+    return ck
+
+
 def units(tier):
     u = []
     big = [2, 3, 4] if tier == 'quick' else [2, 3, 4, 5]
@@ -255,4 +331,7 @@ def units(tier):
         for k in range(1, n + 1): u.append(('sleepTrees_n%d_k%d' % (n, k), 'unit_sleeptrees', {'ntree': n, 'k': k}))
     for nt, nb in ([(1, 2), (2, 3)] if tier == 'quick' else [(1, 2), (2, 3), (2, 4), (3, 4)]):
         u.append(('updateSleep_nt%d_nb%d' % (nt, nb), 'unit_update', {'ntree': nt, 'nbody': nb}))
+    eqsets = [(2, [('mjEQ_CONNECT', 1, 2)]), (3, [('mjEQ_WELD', 1, 2), ('mjEQ_CONNECT', 2, 3)]), (2, [('mjEQ_CONNECT', 0, 1), ('mjEQ_JOINT', 1, 2)])]
+    if tier != 'quick': eqsets += [(3, [('mjEQ_JOINT', 1, 3), ('mjEQ_WELD', 3, 2)]), (3, [('mjEQ_CONNECT', 1, 2), ('mjEQ_CONNECT', 1, 3)])]
+    for nt, eqs in eqsets: u.append(('wakeEquality_nt%d_%s' % (nt, '_'.join('%s%d%d' % (t[5:8], b1, b2) for t, b1, b2 in eqs)), 'unit_wakeeq', {'ntree': nt, 'eqs': eqs}))
     return u
